@@ -144,8 +144,15 @@ func (s *Scheduler) diskOp(path, kind string, record bool) {
 			return
 		}
 		// coin from the record stream: deterministic because exactly one run executes between decisions
+		prob := s.spec.RecordP
+		if kind == "write" {
+			prob = s.spec.OpP
+			if prob <= 0 {
+				return
+			}
+		}
 		s.mu.Lock()
-		y := s.recRng.F() < s.spec.RecordP
+		y := s.recRng.F() < prob
 		s.mu.Unlock()
 		if !y {
 			return
